@@ -348,12 +348,15 @@ def gen_cases(ctx):
     # ---------------- addrparse (decision)
     for _ in range(10000 if q else 100000):
         fl = rng.choice([0, 1, 1])
-        ip = rng.choice([b'192.0.2.4', b'::1', b'10.0.0.1', b'fe80::1', b'1.2.3.4', b'1.2.3.40'])
+        # local addresses shorter and longer than the literals they are compared with (seeded change c14-m8 indexed
+        # the address text with the length of the local address before comparing)
+        ip = rng.choice([b'192.0.2.4', b'::1', b'10.0.0.1', b'fe80::1', b'1.2.3.4', b'1.2.3.40', b'192.168.100.200',
+                         b'2001:db8:1234:5678:9abc:def0:1234:5678', b'::ffff:192.168.100.200'])
         r = rng.random()
         if r < 0.35:
             m = g_local(rng) + b'@' + g_domain(rng)
         elif r < 0.65:
-            lit = rng.choice([b'[' + ip + b']', b'[IPv6:' + ip + b']', b'[' + ip[:-1] + b']', b'[' + ip + b'0]', g_literal(rng)])
+            lit = rng.choice([b'[' + ip + b']', b'[IPv6:' + ip + b']', b'[' + ip[:-1] + b']', b'[' + ip + b'0]', g_literal(rng), b'[1.1.1.1]', b'[IPv6:::]', b'[10.0.0.1]'])
             m = g_local(rng) + b'@' + lit
         elif r < 0.75:
             m = rng.choice(pm)
